@@ -129,7 +129,9 @@ def facts_dir(profile, key=None):
         # drop fact sets of older keys (keep disk bounded)
         root = os.path.join(CACHE, "facts")
         keys = sorted(os.listdir(root), key=lambda k: os.path.getmtime(os.path.join(root, k)))
+        # (a key that was touched in the last 30 minutes may be in use by a concurrent run on another tree: leave it)
+        now = time.time()
         for k in keys[:-3]:
-            if k != key:
+            if k != key and now - os.path.getmtime(os.path.join(root, k)) > 1800:
                 shutil.rmtree(os.path.join(root, k), ignore_errors=True)
     return d
